@@ -15,7 +15,11 @@ EXPLANATION = (
     "repetition in the payload of a tuple-variant constructor is under a `len() != 1` split; (W1) every panic-capable site "
     "reachable from the render entry points (to_stream, ToTokens, the Type/TypeEnum/TypeStruct/TypeNewtype API) matches a "
     "reviewed discharge idiom, anything else is reported with its entry point; (D1) sanitised names are checked for distinctness "
-    "before they are committed (variants, properties, items)."
+    "before they are committed (variants, properties, items); "
+    "(W1, native names) every native type name that is not a literal is the very string that was parsed as a type path in the "
+    "constructing function — the renderer parses it again with expect(); (X) imported: the cycle-breaking rules of C07, "
+    "has_impl⇒emitted of C17, the Deserialize pairing and derive guards of C19, validator⊆renderer, finalisation and "
+    "registration of shared default functions of C06, and the map-type agreement of C14."
 )
 ASSUMPTIONS = ["syn's grammar is the definition of 'parses'", "ingestion-time panics (todo!/unimplemented! on unsupported schema shapes) are listed as information, not decided"]
 
